@@ -23,7 +23,7 @@ REAL_VS_STUB = {"real": ["gen_params end to end incl. load_ff_library, parsers, 
                 "stub": ["tqdm disabled", "sys.argv pinned", "os.listdir of the library directory answered by the harness",
                          "polyply DATA_PATH redirected to a scratch directory for generated libraries"]}
 PROBES = ["dim_hash", "dim_repeat", "dim_fileorder", "dim_listdir", "dim_relabel", "dim_history", "lib_family",
-          "history_with_failed_call", "protein_family_with_terminal_modifications",
+          "history_with_failed_call", "protein_family_with_terminal_modifications", "dna_family_with_complementary_strand",
           "linktype_family", "replace_link_family", "multi_residue_block_family"]
 
 
@@ -42,6 +42,23 @@ def gen_job(verif_seed, tier, index):
     st = Streams(seed)
     g, e = st.gen, st.env
     members = []
+    if g.random() < 0.06:
+        # DNA strand over a shipped library, mostly with -dsdna (the complementary strand is generated): the listing
+        # order / keys of the residues in the .json file must not matter
+        rg = histgen.dna_graph(g)
+        n = len(rg["resnames"])
+        lib = g.choice(["martini2", "parmbsc1"])
+        ds = g.random() < 0.75
+        base = histgen.dna_op(g, rg, lib, ds)
+        members.append({"dim": "base", "hashseed": 0, "ops": [base], "observe": 0})
+        members.append({"dim": "hash", "hashseed": e.choice(histgen.PALETTE[1:]), "ops": [base], "observe": 0})
+        members.append({"dim": "repeat", "hashseed": e.choice(histgen.PALETTE), "ops": [base, base], "observe": 1})
+        for k in range(3):
+            keys = sorted(e.sample(range(0, 1000), n)) if k == 0 else e.sample(range(0, 10 ** 6), n)
+            op = histgen.dna_op(g, rg, lib, ds, keys=keys, node_order=_perm(e, n),
+                                edge_order=_perm(e, n - 1), flip=[i for i in range(n - 1) if e.random() < 0.5])
+            members.append({"dim": "relabel", "hashseed": e.choice(histgen.PALETTE), "ops": [op], "observe": 0})
+        return {"index": index, "run_seed": seed, "members": members, "lib": True, "dna": True}
     if g.random() < 0.08:
         # protein over the shipped martini3 library with a json residue graph: terminal modifications are applied
         rg = histgen.protein_graph(g)
@@ -240,6 +257,8 @@ def run_job(job):
             probes["multi_residue_block_family"] = 1
     if job.get("protein"):
         probes["protein_family_with_terminal_modifications"] = 1
+    if job.get("dna"):
+        probes["dna_family_with_complementary_strand"] = 1
     digest = h.hexdigest()[:24]
     inter_res = base["status"] == "ok" and any(base["sections"].get(s) for s in ("bonds", "constraints")) and \
         len({a.split()[2] for a in base["atoms"]}) >= 2
